@@ -990,6 +990,18 @@ class Repeat(AArr):
 class Reshape(AArr):
     def __init__(self, base, shape):
         shape = tuple(shape)
+        if any(_isint(v) and not isinstance(v, SInt) and v == -1 for v in shape):
+            # one unknown extent, as NumPy allows: size / product of the others (must divide)
+            known = _prod([v for v in shape if not (not isinstance(v, SInt) and v == -1)])
+            if len([v for v in shape if not isinstance(v, SInt) and v == -1]) != 1:
+                raise ValueError("can only specify one unknown dimension")
+            if len(shape) == 1:
+                shape = (base.size,)
+            else:
+                q = base.size // known
+                if not (q * known == base.size):
+                    raise ValueError(f"cannot reshape array of size {base.size} into shape {shape}")
+                shape = tuple(q if (not isinstance(v, SInt) and v == -1) else v for v in shape)
         if not (_prod(shape) == base.size):
             raise ValueError(f"cannot reshape array of size {base.size} into shape {shape}")
         super().__init__(shape, base.dtype)
@@ -1350,6 +1362,22 @@ class Namespace:
         a, b = _lift(a), _lift(b)
         prod_ = Elemwise("multiply", (a, b))
         return Reduce("sum", prod_, _norm_axis(axis, prod_.ndim), False)
+
+    def isin(self, element, test_elements, **kw):
+        """shape transfer only: a bool array of element's shape (its values depend on NumPy's comparison of the values)"""
+        if not isinstance(element, AArr) and not isinstance(test_elements, AArr):
+            return self._real.isin(element, test_elements, **kw)
+        element = _lift(element)
+        return Opaque(element.shape, _np.dtype(bool), "isin", (element, _lift(test_elements)))
+
+    def searchsorted(self, x1, x2, side="left", sorter=None):
+        """shape transfer only: insertion indices have x2's shape and the index dtype"""
+        if not isinstance(x1, AArr) and not isinstance(x2, AArr):
+            return self._real.searchsorted(x1, x2, side=side, sorter=sorter)
+        x1, x2 = _lift(x1), _lift(x2)
+        if x1.ndim != 1:
+            raise ValueError("object too deep for desired array")
+        return Opaque(x2.shape, _np.dtype("int64"), "searchsorted", (x1, x2))
 
     def take_along_axis(self, x, indices, axis=-1):
         x, indices = _lift(x), _lift(indices)
